@@ -724,6 +724,7 @@ func c18Lists(r *Run, rng *Rng, mul int) {
 }
 
 var c18ReplayDn *c18DnState
+var c18ReplayCf *c18CfHist
 
 // c18ReplayMore re-executes defined-name op lines (stateful) of a replay file.
 func c18ReplayMore(r *Run, rng *Rng, line string, w []string) {
@@ -733,6 +734,13 @@ func c18ReplayMore(r *Run, rng *Rng, line string, w []string) {
 			return unhx(w[i])
 		}
 		return ""
+	}
+	if strings.HasPrefix(w[0], "cf") {
+		if c18ReplayCf == nil {
+			c18ReplayCf = &c18CfHist{}
+		}
+		c18ReplayCf.exec(r, rng, line)
+		return
 	}
 	switch w[0] {
 	case "dnreset":
